@@ -57,6 +57,7 @@ type Top struct {
 	nbound     int
 	hookSeen   map[string]bool // callee names that reached callHooks (to report hooks that match nothing)
 	goCapVars  map[string]bool // names of the spawner's variables the function literal being spawned captures
+	goCapStale map[string]bool // … of those, the ones declared OUTSIDE the innermost loop around the go statement
 	hookCond   Term            // set while the hooks of a conditional event (a select's send case) run
 	goCaps     []refComp       // reference components handed to the goroutine at the current go statement
 	epochHeaps map[string]Term
